@@ -56,7 +56,7 @@ for name in sorted(os.listdir(sd)):
         what = "reverts repair `%s`: %s" % (meta["reverts"], meta["fix_subject"][5:])
     out.append("| %s | %s | %s | %s | %s | %s | %s | %s |" % (
         name, res.get("property", name[:3]), what[:160], needs[:140], res.get("status", "not run"), res.get("tier", ""),
-        res.get("cond", ""), (res.get("first_replay", "") or "").replace("|", "/")[31:200]))
+        res.get("cond", ""), ((res.get("first_replay", "") or "").replace("|", "/")[31:200] + ((" -- " + res["note"]) if res.get("note") else ""))))
 text = "\n".join(out) + "\n"
 p = os.path.join(ROOT, "DESIGN.md")
 s = open(p).read()
